@@ -169,8 +169,25 @@ def r15_4_5(ctx: Ctx):
                     isinstance(m.base_expr, ast.Name) and m.base_expr.id == m.func.param_names[2]:
                 continue        # the permitted effect of an evaluation: its target is checked at the call site above
             bad = []
+            # a helper method of a base class, called only as self.helper(...) by methods whose own self is the
+            # object under construction: its `self` is that object (the points-to relation merges all receivers)
+            via_self = False
+            hf = m.func
+            if hf.cls is not None and c.is_subclass_of(hf.cls) and hf.param_names and \
+                    isinstance(m.base_expr, ast.Name) and m.base_expr.id == hf.param_names[0] and hf is not init:
+                sites = [k for k in pta.callers.get(roles.fq(hf), ()) if k[0] in reach or k[0] == roles.fq(init)]
+                via_self = bool(sites)
+                for (cq, nid) in sites:
+                    cf = ctx.ix.funcs.get(cq.replace('@setter', ''))
+                    nd = pta.call_nodes.get((cq, nid))
+                    if cf is None or nd is None or not cf.param_names or not (
+                            isinstance(nd.func, ast.Attribute) and isinstance(nd.func.value, ast.Name) and
+                            nd.func.value.id == cf.param_names[0]):
+                        via_self = False
             for o in m.bases:
                 if E.fresh_in(reach, o) or o in own_inst:
+                    continue
+                if via_self and o.kind == 'ext_inst' and o.cls is not None and o.cls.is_subclass_of(hf.cls):
                     continue
                 if o.kind in ('inst', 'ext_inst') and o.cls is not None and m.init_self:
                     continue
